@@ -469,14 +469,14 @@ func c05(c *wk.Ctx) {
 	if wk.ReplayOne(c, "c05cases", func(idx int) interface{} { return c05extra{Big: idx >= 8000000} }, onDeath) {
 		return
 	}
-	n := c.N(180, 12000)
+	n := c.N(180, 6000)
 	nbig := c.N(2, 16)
 	type job struct {
 		start, end int
 		big        bool
 	}
 	var jobs []job
-	parts := 6 // each link holds a 32 MiB bufio + a 32 MiB pipe
+	parts := n / 30 // each link holds a 32 MiB bufio + a 32 MiB pipe for the life of the child: short-lived children
 	for p := 0; p < parts; p++ {
 		jobs = append(jobs, job{n * p / parts, n * (p + 1) / parts, false})
 	}
